@@ -33,6 +33,32 @@ def snapshot(interp, v):
     return v
 
 
+def loop_signature(n):
+    """coarse signature of a loop header: kind, names bound by the target, names read in the iterable / test (constants, slices and call
+    structure are deliberately ignored so that an edited bound still binds - and is then judged by the invariant)"""
+    import ast as _a
+    if isinstance(n, _a.For):
+        tg = sorted({x.id for x in _a.walk(n.target) if isinstance(x, _a.Name)})
+        rd = sorted({x.id for x in _a.walk(n.iter) if isinstance(x, _a.Name)} | {x.attr for x in _a.walk(n.iter) if isinstance(x, _a.Attribute)})
+        return "for %s in {%s}" % (",".join(tg), ",".join(rd))
+    rd = sorted({x.id for x in _a.walk(n.test) if isinstance(x, _a.Name)} | {x.attr for x in _a.walk(n.test) if isinstance(x, _a.Attribute)})
+    return "while {%s}" % ",".join(rd)
+
+
+_LOOP_SIGS = [None]
+
+
+def recorded_loop_signatures():
+    if _LOOP_SIGS[0] is None:
+        import json as _j, os as _o
+        pth = _o.path.join(_o.path.dirname(_o.path.dirname(_o.path.abspath(__file__))), "contracts", "loop_signatures.json")
+        try:
+            _LOOP_SIGS[0] = _j.load(open(pth))
+        except Exception:
+            _LOOP_SIGS[0] = {}
+    return _LOOP_SIGS[0]
+
+
 def verify_function(ct, label=None, params=None, observe=None):
     """observe: optional callback(interp, frame, ret, a) -> dict, evaluated at every normal path end; the
     (facts, observation) pairs are returned in rep.summaries (symbolic summaries for relational lemmas)."""
@@ -79,6 +105,17 @@ def verify_function(ct, label=None, params=None, observe=None):
     if gone:
         rep.status, rep.detail = "unbound", "contract gives invariants for loops %s that the current source does not have" % gone
         return rep
+    rec = recorded_loop_signatures().get(ct.qualname, {})
+    if rec:
+        import ast as _ast2
+        keys_now = repo.loop_keys(full_node)
+        sig_now = {keys_now[id(n_)]: loop_signature(n_) for n_ in _ast2.walk(full_node) if id(n_) in keys_now}
+        moved = [k for k in ct.loops if rec.get(k) is not None and sig_now.get(k) != rec.get(k)]
+        if moved:
+            rep.status = "unbound"
+            rep.detail = "loops %s are not the loops the invariants were written for (header now %s, recorded %s): a loop was inserted, removed or rewritten" % (
+                moved, [sig_now.get(k) for k in moved], [rec.get(k) for k in moved])
+            return rep
     fired_hooks = set()
     worklist = [[]]
     seen = set()
